@@ -326,6 +326,18 @@ class CVRPTWSpec(CVRPSpec):
                     tw, du = self._windows(pts, ch, du_)
                     iid = f"diamond3-{''.join(c[0] for c in ch)}-{'-'.join(str(int(x * 4)) for x in dv)}-s{int(du_[0] * 8)}{int(du_[1] * 8)}{int(du_[2] * 8)}"
                     out.append((iid, _cvrp_inst(pts, dv, time_windows=tw, durations=du, exact=True)))
+        # exact-arithmetic boundary instances: every number is a dyadic rational and all distances of the diamond are
+        # exact (3-4-5 triangles), so an arrival can EQUAL a window end.  Customer 2's window closes exactly when the
+        # vehicle arrives via customer 1 (0 -> 1 -> 2), customer 3's when it arrives via 2.
+        pts = DIAMOND[:3]
+        for s_ in (0.0, 0.125):
+            d01, d02, d03 = d(C, pts[0]), d(C, pts[1]), d(C, pts[2])
+            d12, d23 = d(pts[0], pts[1]), d(pts[1], pts[2])
+            T = self.T
+            tw = [[0.0, T], [d01, T - d01 - s_], [d02, d01 + s_ + d12], [d03, d02 + s_ + d23]]
+            inst = _cvrp_inst(pts, (0.25, 0.25, 0.25), time_windows=tw, durations=[0.0, s_, s_, s_], exact=True)
+            inst["_exact_time"] = True
+            out.append((f"diamond3-tight-s{int(s_ * 8)}", inst))
         if tier != "quick":
             pts = DIAMOND
             for ch in [("wide",) * 4, ("early", "late", "mid", "wide"), ("mid",) * 4, ("late", "late", "early", "early")]:
@@ -375,7 +387,8 @@ class OPSpec(RSpec):
         out = []
         prizes = [(1.0, 1.0, 1.0, 1.0), (0.25, 0.5, 0.75, 1.0)]
         # tour lengths on the diamond are multiples of 1/16: limits in the band (exactly a tour length), tight and loose
-        for L in (0.5, 0.75, 0.875, 1.0, 1.25, 1.5, 2.0, 0.3):
+        # 0.4375: only customers 1 and 3 (round trip 0.375) are reachable, 2 and 4 (round trip 0.5) are not
+        for L in (0.5, 0.75, 0.875, 1.0, 1.25, 1.5, 2.0, 0.3, 0.4375):
             for pr in prizes:
                 out.append((f"diamond4-L{L}-p{int(pr[0] * 4)}", dict(depot=C, locs=DIAMOND, prize=list(pr), max_length=L, _exact=True)))
         out.append(("generic4", dict(depot=GENERIC[0], locs=GENERIC[1:5], prize=[0.1, 0.2, 0.3, 0.4], max_length=1.9)))
